@@ -160,6 +160,16 @@ C15_NoStuckJoin ==
         \/ \E k \in 1..Len(polls) : polls[k].s = joiners[i].s
         \/ wsw[joiners[i].s] \in {"new", "run"}
 
+\* disconnect() without a sid: when the clients are closed together (asyncio), or none of
+\* the closes has to wait, every client of the table has had its disconnect by the time
+\* the call proceeds
+C15_DisconnectAllClosesAll ==
+    [][AppDisconnectAll => \A s \in g.table : g'.ss[s].closed \/ g'.ss[s].closing]_vars
+\* ... and the table is empty when it returns
+C15_DisconnectAllEmpties ==
+    [][(AppDisconnectAll /\ Len(g'.out) > Len(g.out)
+           /\ g'.out[Len(g'.out)] = [k |-> "ret", cid |-> nreq']) => g'.table = {}]_vars
+
 ---------------------------------------------------------------------------
 (* C16: table hygiene *)
 C16_TableOnlyUsed == \A s \in g.table : g.ss[s].used
@@ -171,4 +181,9 @@ C16_ReapedInTime ==
 \* a rejected session is never addressable
 C16_DeadNotInTable == \A s \in g.rejd : s \notin g.table
 C16_DataIsolated == \A s \in Sid : ~g.ss[s].used => g.ss[s].ud = 0
+\* in the model-checking alphabet the data stored for session s is s (save_session) or s + 2
+\* (session() block): what is stored for, and read through, s never comes from another session
+C16_DataIsolatedMC ==
+    /\ \A s \in Sid : g.ss[s].ud \in {0, s, s + 2}
+    /\ \A i \in 1..Len(g.out) : g.out[i].k = "sess" => g.out[i].ud \in {0, g.out[i].s, g.out[i].s + 2}
 =============================================================================
